@@ -340,7 +340,21 @@ class Expander:
             self.exec_effect(st.value, env)
             return
         if isinstance(st, ast.Assign):
-            v = self.eval(st.value, env)
+            try:
+                v = self.eval(st.value, env)
+            except Unsupported:
+                # `q = pnt[0, :]` - a selection of the generic loop element held in a local: the local is another name for (a part
+                # of) that element, opaque like the loop variable itself (rules identify it by its text; evaluating it stays Unsupported)
+                names = {n.id for n in ast.walk(st.value) if isinstance(n, ast.Name)}
+                sel = st.value
+                while isinstance(sel, ast.Subscript):
+                    sel = sel.value
+                if names and names <= self.loopvars and isinstance(sel, ast.Name) and all(isinstance(t, ast.Name) for t in st.targets) \
+                        and not any(t.id in env for t in st.targets):
+                    for t in st.targets:
+                        self.loopvars.add(t.id)
+                    return
+                raise
             for t in st.targets:
                 self.assign(t, v, env)
             return
